@@ -47,6 +47,9 @@ type c08CLIParams struct {
 	FailVia int `json:"fail_via,omitempty"`
 	// Quiet: the run gets a logger that is disabled for every level (f1.WithLogger) and --verbose
 	Quiet bool `json:"quiet,omitempty"`
+	// Env: "" | logdir (LOG_FILE_PATH names a directory: the log file cannot be created) |
+	// gateway503 (PROMETHEUS_PUSH_GATEWAY names a gateway that answers 503 to every push)
+	Env string `json:"env,omitempty"`
 }
 
 type c08RunVerdictParams struct {
@@ -270,6 +273,15 @@ func init() {
 					p.Quiet = r.IntN(2) == 0
 				}
 				c := core.MkCase("C08", "cli", k, seed, p)
+				c.Solo = true
+				c.TimeoutMS = 60000
+				cs = append(cs, c)
+			}
+			// surroundings that do not work (log file cannot be created, push gateway refuses): the verdict is about
+			// the iterations, setup and teardown only
+			for i, env := range []string{"logdir", "gateway503", "logdir", "gateway503"} {
+				p := c08CLIParams{Mode: "users", N: 20, Fail: []int{0, 0, 3, 1}[i], MaxF: []int{0, 0, 2, 5}[i], Conc: 2, Env: env}
+				c := core.MkCase("C08", "cli", 950+i, seed, p)
 				c.Solo = true
 				c.TimeoutMS = 60000
 				cs = append(cs, c)
@@ -548,6 +560,23 @@ func c08CLI(c *core.Case, o *core.Outcome) {
 		defer os.Remove(pf)
 		args = append([]string{"--" + p.Profile, pf}, args...)
 	}
+	switch p.Env {
+	case "logdir":
+		old, had := os.LookupEnv("LOG_FILE_PATH")
+		os.Setenv("LOG_FILE_PATH", os.TempDir())
+		defer func() {
+			if had {
+				os.Setenv("LOG_FILE_PATH", old)
+			} else {
+				os.Unsetenv("LOG_FILE_PATH")
+			}
+		}()
+	case "gateway503":
+		gw := engine.NewGateway(503)
+		defer gw.Close()
+		os.Setenv("PROMETHEUS_PUSH_GATEWAY", gw.URL())
+		defer os.Unsetenv("PROMETHEUS_PUSH_GATEWAY")
+	}
 	inst := f1.New()
 	if p.Quiet {
 		inst = inst.WithLogger(slog.New(quietHandler{}))
@@ -579,6 +608,10 @@ func c08CLI(c *core.Case, o *core.Outcome) {
 		}
 		o.Sig("cli:drops:ignore=%v", p.Ignore)
 	default:
+		if p.Env != "" && err != nil && started.Load() == 0 {
+			o.Violate("cli-env:"+p.Env, "with %s the command returned %v and ran nothing: a valid run of %d iterations got no verdict at all (%s)", p.Env, err, p.N, desc)
+			return
+		}
 		if int(started.Load()) != p.N {
 			o.Inconc("run did not execute exactly N=%d iterations (%d): %s", p.N, started.Load(), desc)
 			return
